@@ -6,6 +6,7 @@
 -/
 import ClairModel.Proofs.TarFS
 import ClairModel.Proofs.TarFSInv
+import ClairModel.Proofs.TarFSSub
 
 namespace ClairModel.Props.C11
 open ClairModel ClairModel.TarFS
@@ -20,19 +21,46 @@ theorem normPath_contained (p : Bytes) : validPath (normPath p) = true :=
 
 /-- No escape: in the view New builds from any member list whatsoever, every
     key of the lookup table, every stored member name and every stored target
-    of a symbolic or hard link is a contained name (`Contained k`: `k` is "."
-    or a relative path none of whose elements is empty, "." or ".."). Together
-    with the fact that paths are only ever resolved through the lookup table
-    and the children tables, no member name or link target can make the view
-    refer outside the archive root. -/
+    of a symbolic or hard link is a contained name (`Contained k` is
+    `validPath k = true`, i.e. io/fs.ValidPath: "." or a relative path none of
+    whose elements is empty, "." or "..", in valid UTF-8). Since paths are only
+    ever resolved through the lookup table and the children tables, no member
+    name or link target can make the view refer outside the archive root, and
+    every key can be asked for through the io/fs interface. -/
 theorem no_escape (ms : List Member) (fs : FS) (h : newFS ms = .ok fs) :
-    (∀ x ∈ fs.lookup, Contained x.1) ∧
-    (∀ n ∈ fs.inodes, Contained n.name ∧ ((n.kind = .sym ∨ n.kind = .link) → Contained n.link)) :=
+    (∀ x ∈ fs.lookup, validPath x.1 = true) ∧
+    (∀ n ∈ fs.inodes, validPath n.name = true ∧
+      ((n.kind = .sym ∨ n.kind = .link) → validPath n.link = true)) :=
   ⟨(newFS_inv ms fs h).keys, (newFS_inv ms fs h).inos⟩
 
-/-- The same holds for every view obtained by Sub (to any depth). -/
+/-- The same invariant holds for every view obtained by Sub (to any depth). -/
 theorem no_escape_sub (fs fs' : FS) (dir : Bytes) (h : Inv fs) (hs : subFS fs dir = .ok fs') : Inv fs' :=
   subFS_inv fs dir fs' h hs
+
+/-- Sub is faithful (fixed code, 88b9d780): for a view satisfying the
+    invariant of `no_escape` and a name that resolves to an inode whose member
+    name `d` is not ".", the lookup table of `Sub` consists of "." for the key
+    `d` and of `r` for every key `d/r` — nothing else, in particular no key of
+    a sibling whose name merely starts with `d`. -/
+theorem sub_faithful (fs fs' : FS) (dir : Bytes) (n : Nat) (hinv : Inv fs)
+    (hn : getInode fs dir = .ok n) (hs : subFS fs dir = .ok fs') (hbp : (fs.ino n).name ≠ dotP) :
+    ∀ (r : Bytes) (i : Nat), (r, i) ∈ fs'.lookup ↔
+      (r = dotP ∧ ((fs.ino n).name, i) ∈ fs.lookup) ∨
+      (r ≠ dotP ∧ ((fs.ino n).name ++ SL :: r, i) ∈ fs.lookup) :=
+  subFS_entries fs fs' dir n hinv hn hs hbp
+
+/-- Sub of the root keeps the whole table (before the fix it kept only names
+    starting with a dot). -/
+theorem sub_root_faithful (fs fs' : FS) (dir : Bytes) (n : Nat)
+    (hn : getInode fs dir = .ok n) (hs : subFS fs dir = .ok fs') (hbp : (fs.ino n).name = dotP) :
+    fs'.lookup = fs.lookup :=
+  subFS_root fs fs' dir n hn hs hbp
+
+/-- The defect of DESIGN section 5 row 18, kept visible: the filter Sub used
+    before the fix maps the key "ab/y" of a sibling to "b/y" in Sub("a"). -/
+theorem sub_prefix_counterexample :
+    subEntryLegacy [97] ([97, 98, 47, 121], 3) = some ([98, 47, 121], 3) :=
+  subEntryLegacy_leaks
 
 /-- Other repetition is rejected (1): a member that is not a regular file or
     hard link (a directory, symbolic link or special file) whose name is
